@@ -92,6 +92,7 @@ CROSS = {
     ("C10-r4", "C14"): "genuine: forward-reference records keyed by position only collide inside macro expansions, so a jump to an undefined label passes the driver's check (C14: rejected before anything executes)",
     ("C13-r4", "C19"): "genuine: on the too-deep exit the macro's name stays in the nesting set; the parser object then rejects a later, valid use of that macro (C19: objects do not leak state)",
     ("C15-r4", "C16"): "genuine: `nop` emits a line without a source-map entry: every later line is attributed to the line before it (C16), and the last emitted line has no entry at all (the abort C15 names)",
+    ("C14-r4", "C16"): "genuine: the parked `call` is recorded with the production's bare lookaround; for a call that comes out of a macro expansion the driver's report would cite the line at that offset of the expanded text (the defect repaired for jumps in 6bb1ba6)",
     ("C20-r1", "C17"): "genuine: a print range that leaves the 1 MB space is no longer reported (C17's last clause)",
 }
 
